@@ -57,6 +57,7 @@ type Flags struct {
 	CommRx      string
 	Map         []Rule
 	RemapRx     string
+	ShowRx      string // --show-commodities (valued reports: per-commodity rows for matching accounts)
 	V           string
 }
 
@@ -319,7 +320,7 @@ func (j *Journal) Case(id int, kind string, f *Flags) map[string]any {
 			"from": f.From, "to": f.To, "iv": f.Iv, "last": f.Last, "diff": f.Diff, "close": f.Close,
 			"acctAll": f.AcctRx == "", "accts": matching(f.AcctRx, accts),
 			"commAll": f.CommRx == "", "commsF": matching(f.CommRx, comms),
-			"map": rules, "remap": matching(f.RemapRx, accts),
+			"map": rules, "remap": matching(f.RemapRx, accts), "show": matching(f.ShowRx, accts),
 		}
 	}
 	return cs
@@ -379,6 +380,9 @@ func (f *Flags) Args() []string {
 	}
 	if f.RemapRx != "" {
 		a = append(a, "--remap", f.RemapRx)
+	}
+	if f.ShowRx != "" {
+		a = append(a, "-s", f.ShowRx)
 	}
 	return a
 }
